@@ -145,9 +145,26 @@ class RemoteState(dict):
             cls.increment_patches_iter()
 
     @staticmethod
+    def default_setstate(obj, state):
+        ''' Default behaviour of unpickling for objects without __setstate__ (see load_build in pickle.py).
+        '''
+        slotstate = None
+        if isinstance(state, tuple) and len(state) == 2:
+            state, slotstate = state
+        if state:
+            obj.__dict__.update(state)
+        if slotstate:
+            for key, value in slotstate.items():
+                setattr(obj, key, value)
+
+    @staticmethod
     def recreate_obj_and_patch_setstate(newobj, newargs, children_names):
         ret = newobj(*newargs)
-        orig_getstate = ret.__setstate__.__func__
+        try:
+            orig_getstate = ret.__setstate__.__func__
+        except AttributeError:
+            # the class does not define __setstate__, fall back to what pickle does by default
+            orig_getstate = RemoteState.default_setstate
         def patched_setstate(obj, state):
             if isinstance(state, dict):
                 patched_state = state.copy()
@@ -157,7 +174,7 @@ class RemoteState(dict):
             else:
                 patched_state = state
             del obj.__setstate__
-            assert obj.__setstate__.__func__ is orig_getstate
+            assert getattr(obj, '__setstate__', None) is None or obj.__setstate__.__func__ is orig_getstate
             orig_getstate(obj, patched_state)
             RemoteState.child_restored(obj)
 
